@@ -101,8 +101,13 @@ def chain_events(codes):
             {'sheet': 'Sheet1', 'col': 4, 'row': 1, 'ast': S.call('ISERROR', [S.ref(3, 1)])},
             {'sheet': 'Sheet1', 'col': 5, 'row': 1, 'ast': S.call('ISNA', [S.ref(2, 1)])},
             {'sheet': 'Sheet1', 'col': 6, 'row': 1, 'ast': S.bin_('=', S.ref(3, 1), S.ref(1, 1))},
+            # the same error-valued cell mentioned twice in one formula
+            {'sheet': 'Sheet1', 'col': 7, 'row': 1, 'ast': S.bin_('+', S.ref(1, 1), S.ref(1, 1))},
+            {'sheet': 'Sheet1', 'col': 8, 'row': 1, 'ast': S.bin_('&', S.ref(2, 1), S.ref(2, 1, '', True, True))},
+            {'sheet': 'Sheet1', 'col': 9, 'row': 1, 'ast': S.call('IF', [S.call('ISERROR', [S.ref(2, 1)]), S.ref(2, 1), S.num('0')])},
+            {'sheet': 'Sheet1', 'col': 10, 'row': 1, 'ast': S.bin_('+', S.call('SUM', [S.rng(1, 1, 2, 1)]), S.ref(1, 1))},
         ]
-        for probe in range(1, 7):
+        for probe in range(1, 11):
             ast = cells[probe - 1]['ast']
             evs.append({'ast': ast, 'style': S.STYLE0, 'text': [ord(c) for c in S.formula(ast)], 'sheet': 'Sheet1', 'cells': cells,
                         'probe': probe})
@@ -113,14 +118,14 @@ def record_chain(chunk):
     L = xl.lib()
     out = []
     for e in chunk:
-        d = {f"Sheet1!{'ABCDEF'[c['col'] - 1]}1": S.formula(c['ast']) for c in e['cells']}
+        d = {f"Sheet1!{'ABCDEFGHIJ'[c['col'] - 1]}1": S.formula(c['ast']) for c in e['cells']}
         try:
             model = L.ModelCompiler().read_and_parse_dict(d)
             ev = L.Evaluator(model)
             # evaluate the LAST cell first so that the probe is read from what was stored along the chain
             ev.evaluate('Sheet1!F1')
-            pa = f"Sheet1!{'ABCDEF'[e['probe'] - 1]}1"
-            if e['probe'] in (4, 5):        # not a precedent of F1: evaluate it (its precedents are already stored)
+            pa = f"Sheet1!{'ABCDEFGHIJ'[e['probe'] - 1]}1"
+            if e['probe'] in (4, 5, 7, 8, 9, 10):        # not a precedent of F1: evaluate it (its precedents are already stored)
                 ev.evaluate(pa)
             res = xl.to_abs(ev.get_cell_value(pa))
         except BaseException as ex:      # noqa
